@@ -21,7 +21,9 @@ CLAIMED = {
         text='Theorems (SfxProps.C10): encode has width/8 bytes, equals to_le_bytes and ignores the fractional-bit count; decode(encode a ++ rest) = (a, |rest|); '
              'short input fails; le/be/ne byte views and from_*_bytes are mutually inverse bijections; the struct description regenerated from lib.rs '
              '(fields, repr, derives, no #[codec] attribute, no manual impl) is checked by a theorem over Generated.lean. Correspondence on the public '
-             'Encode/Decode/MaxEncodedLen API and byte views (8-bit exhaustive), under both build profiles (a seeded hand-written Encode that only panics under overflow checks showed the need). serde form not exercised.',
+             'Encode/Decode/MaxEncodedLen API and byte views (8-bit exhaustive), under both build profiles (a seeded hand-written Encode that only panics under overflow checks showed the need). '
+             'SfxProps/C10Serde.lean: the serde representation (crate feature serde, through serde_json and serde_cbor, both offline): ser = exactly {"bits":<canonical decimal>} independent of the layout, '
+             'de(ser x) = x, out-of-range integers rejected, Wrapping identical, white space and the sequence form accepted; 0.3 M requests incl. ~120 rejection classes.',
         design_ref='7/C10', note=COMMON_NOTE + ' parity-scale-codec derive semantics (fields in order, PhantomData encodes to nothing) are assumed and cross-checked by the correspondence.',
         technique='Lean 4 proof over executable model + translator-checked struct description + differential correspondence'),
     'C06': dict(
@@ -94,7 +96,7 @@ CLAIMED = {
              'debug-only check), sin_cos_total (sin for every angle, cos for |x| <= 200 — stronger than asked), log_err_only_when_undefined, log2_iterations, and '
              'SfxProps.C12.tan_total_holds (SfxProps/C12Tan.lean): tan returns Ok without panic or debug-only check for every |x| <= 100 with |Real.tan x| <= 64 — the non-zero denominator '
              'and representable quotient follow from the proved sin/cos accuracy (C16). tan_partial/tan_panic_example show the condition is sharp (an I9F23 angle 6e-6 below pi/2 panics). '
-             'Correspondence in both profiles incl. i32::MIN exponents; panics observed only outside the property\'s domain.',
+             'SfxProps/C12Pairs.lean: the same for DIFFERENT source and destination types (D: From<S>, both supported). Correspondence in both profiles incl. i32::MIN exponents; panics observed only outside the property\'s domain.',
         design_ref='7/C12', note=COMMON_NOTE, technique='Lean 4 proof (value invariants through the loops; real analysis for tan) over executable model + two-profile correspondence'),
     'C13': dict(
         text='Theorem SfxProps.C13.holds (full strength over the model): for every supported source/destination pair (same type or a widening admitted by From; >= 4 fractional '
@@ -174,7 +176,7 @@ CLAIMED = {
              'debug-only check), sin_cos_total (sin for every angle, cos for |x| <= 200 — stronger than asked), log_err_only_when_undefined, log2_iterations, and '
              'SfxProps.C12.tan_total_holds (SfxProps/C12Tan.lean): tan returns Ok without panic or debug-only check for every |x| <= 100 with |Real.tan x| <= 64 — the non-zero denominator '
              'and representable quotient follow from the proved sin/cos accuracy (C16). tan_partial/tan_panic_example show the condition is sharp (an I9F23 angle 6e-6 below pi/2 panics). '
-             'Correspondence in both profiles incl. i32::MIN exponents; panics observed only outside the property\'s domain.',
+             'SfxProps/C12Pairs.lean: the same for DIFFERENT source and destination types (D: From<S>, both supported). Correspondence in both profiles incl. i32::MIN exponents; panics observed only outside the property\'s domain.',
         design_ref='7/C12', note=COMMON_NOTE, technique='Lean 4 proof (value invariants through the loops; real analysis for tan) over executable model + two-profile correspondence'),
     'C13': dict(
         text='Theorem SfxProps.C13.holds (full strength over the model): for every supported source/destination pair (same type or a widening admitted by From; >= 4 fractional '
@@ -253,7 +255,7 @@ CLAIMED = {
              'debug-only check), sin_cos_total (sin for every angle, cos for |x| <= 200 — stronger than asked), log_err_only_when_undefined, log2_iterations, and '
              'SfxProps.C12.tan_total_holds (SfxProps/C12Tan.lean): tan returns Ok without panic or debug-only check for every |x| <= 100 with |Real.tan x| <= 64 — the non-zero denominator '
              'and representable quotient follow from the proved sin/cos accuracy (C16). tan_partial/tan_panic_example show the condition is sharp (an I9F23 angle 6e-6 below pi/2 panics). '
-             'Correspondence in both profiles incl. i32::MIN exponents; panics observed only outside the property\'s domain.',
+             'SfxProps/C12Pairs.lean: the same for DIFFERENT source and destination types (D: From<S>, both supported). Correspondence in both profiles incl. i32::MIN exponents; panics observed only outside the property\'s domain.',
         design_ref='7/C12', note=COMMON_NOTE, technique='Lean 4 proof (value invariants through the loops; real analysis for tan) over executable model + two-profile correspondence'),
     'C13': dict(
         text='Theorem SfxProps.C13.holds (full strength over the model): for every supported source/destination pair (same type or a widening admitted by From; >= 4 fractional '
@@ -332,7 +334,7 @@ CLAIMED = {
              'debug-only check), sin_cos_total (sin for every angle, cos for |x| <= 200 — stronger than asked), log_err_only_when_undefined, log2_iterations, and '
              'SfxProps.C12.tan_total_holds (SfxProps/C12Tan.lean): tan returns Ok without panic or debug-only check for every |x| <= 100 with |Real.tan x| <= 64 — the non-zero denominator '
              'and representable quotient follow from the proved sin/cos accuracy (C16). tan_partial/tan_panic_example show the condition is sharp (an I9F23 angle 6e-6 below pi/2 panics). '
-             'Correspondence in both profiles incl. i32::MIN exponents; panics observed only outside the property\'s domain.',
+             'SfxProps/C12Pairs.lean: the same for DIFFERENT source and destination types (D: From<S>, both supported). Correspondence in both profiles incl. i32::MIN exponents; panics observed only outside the property\'s domain.',
         design_ref='7/C12', note=COMMON_NOTE, technique='Lean 4 proof (value invariants through the loops; real analysis for tan) over executable model + two-profile correspondence'),
     'C13': dict(
         text='Theorem SfxProps.C13.holds (full strength over the model): for every supported source/destination pair (same type or a widening admitted by From; >= 4 fractional '
@@ -394,7 +396,9 @@ CLAIMED = {
         text='Theorems (SfxProps.C10): encode has width/8 bytes, equals to_le_bytes and ignores the fractional-bit count; decode(encode a ++ rest) = (a, |rest|); '
              'short input fails; le/be/ne byte views and from_*_bytes are mutually inverse bijections; the struct description regenerated from lib.rs '
              '(fields, repr, derives, no #[codec] attribute, no manual impl) is checked by a theorem over Generated.lean. Correspondence on the public '
-             'Encode/Decode/MaxEncodedLen API and byte views (8-bit exhaustive), under both build profiles (a seeded hand-written Encode that only panics under overflow checks showed the need). serde form not exercised.',
+             'Encode/Decode/MaxEncodedLen API and byte views (8-bit exhaustive), under both build profiles (a seeded hand-written Encode that only panics under overflow checks showed the need). '
+             'SfxProps/C10Serde.lean: the serde representation (crate feature serde, through serde_json and serde_cbor, both offline): ser = exactly {"bits":<canonical decimal>} independent of the layout, '
+             'de(ser x) = x, out-of-range integers rejected, Wrapping identical, white space and the sequence form accepted; 0.3 M requests incl. ~120 rejection classes.',
         design_ref='7/C10', note=COMMON_NOTE + ' parity-scale-codec derive semantics (fields in order, PhantomData encodes to nothing) are assumed and cross-checked by the correspondence.',
         technique='Lean 4 proof over executable model + translator-checked struct description + differential correspondence'),
     'C06': dict(
@@ -464,7 +468,7 @@ CLAIMED = {
              'debug-only check), sin_cos_total (sin for every angle, cos for |x| <= 200 — stronger than asked), log_err_only_when_undefined, log2_iterations, and '
              'SfxProps.C12.tan_total_holds (SfxProps/C12Tan.lean): tan returns Ok without panic or debug-only check for every |x| <= 100 with |Real.tan x| <= 64 — the non-zero denominator '
              'and representable quotient follow from the proved sin/cos accuracy (C16). tan_partial/tan_panic_example show the condition is sharp (an I9F23 angle 6e-6 below pi/2 panics). '
-             'Correspondence in both profiles incl. i32::MIN exponents; panics observed only outside the property\'s domain.',
+             'SfxProps/C12Pairs.lean: the same for DIFFERENT source and destination types (D: From<S>, both supported). Correspondence in both profiles incl. i32::MIN exponents; panics observed only outside the property\'s domain.',
         design_ref='7/C12', note=COMMON_NOTE, technique='Lean 4 proof (value invariants through the loops; real analysis for tan) over executable model + two-profile correspondence'),
     'C13': dict(
         text='Theorem SfxProps.C13.holds (full strength over the model): for every supported source/destination pair (same type or a widening admitted by From; >= 4 fractional '
@@ -541,7 +545,7 @@ CLAIMED = {
              'debug-only check), sin_cos_total (sin for every angle, cos for |x| <= 200 — stronger than asked), log_err_only_when_undefined, log2_iterations, and '
              'SfxProps.C12.tan_total_holds (SfxProps/C12Tan.lean): tan returns Ok without panic or debug-only check for every |x| <= 100 with |Real.tan x| <= 64 — the non-zero denominator '
              'and representable quotient follow from the proved sin/cos accuracy (C16). tan_partial/tan_panic_example show the condition is sharp (an I9F23 angle 6e-6 below pi/2 panics). '
-             'Correspondence in both profiles incl. i32::MIN exponents; panics observed only outside the property\'s domain.',
+             'SfxProps/C12Pairs.lean: the same for DIFFERENT source and destination types (D: From<S>, both supported). Correspondence in both profiles incl. i32::MIN exponents; panics observed only outside the property\'s domain.',
         design_ref='7/C12', note=COMMON_NOTE, technique='Lean 4 proof (value invariants through the loops; real analysis for tan) over executable model + two-profile correspondence'),
     'C13': dict(
         text='Theorem SfxProps.C13.holds (full strength over the model): for every supported source/destination pair (same type or a widening admitted by From; >= 4 fractional '
